@@ -32,7 +32,7 @@ type Upd struct {
 }
 
 type Case struct {
-	Kind  string `json:"kind"` // seq | trimline | gen | fault
+	Kind  string `json:"kind"` // seq | trimline | trimseq (carry.go: Seq holds the texts of successive WriteLineNoWrap calls) | gen | fault
 	Width int    `json:"width"`
 	Trim  bool   `json:"trim"`
 	Seq   []Upd  `json:"seq,omitempty"`
@@ -214,6 +214,10 @@ type model struct {
 	latest  map[int]string
 	maxLine int // highest line index ever written (0 when nothing was written)
 	any     bool
+	// override (call-history family): the row expected for a line whose latest
+	// text ends inside an incomplete colour sequence - what the bytes that a
+	// fresh process writes for that text show (the statement does not settle it)
+	override map[int]string
 }
 
 func buildModel(seq []Upd) model {
@@ -232,6 +236,9 @@ func buildModel(seq []Upd) model {
 // line"; "A line longer than the terminal width is cut to a prefix that
 // [does not] exceed the width in visible characters".
 func (m model) expectLine(i int, cut int) string {
+	if want, ok := m.override[i]; ok {
+		return want
+	}
 	return norm(cutVisible(visibleOf(m.latest[i]), cut))
 }
 
@@ -285,10 +292,32 @@ func runSeq(cap *capture, c Case) (res result) {
 	if c.Trim {
 		cut, emuWidth = c.Width, c.Width
 	}
+	// texts that end inside an incomplete colour sequence (call-history family):
+	// the output is captured update by update, and the rows of such lines are
+	// compared with what a fresh process writes for the text
+	dang := hasDangling(c.Seq)
+	if dang {
+		m.override = map[int]string{}
+		for line, text := range m.latest {
+			if danglingAt(text) < 0 {
+				continue
+			}
+			fb, ferr := freshTrim(c.Width, c.Trim, text)
+			if ferr != "" {
+				res.fail("C20/linetrim/panic", "a fresh process panics on the text %q alone: %s", text, ferr)
+				return
+			}
+			m.override[line] = renderRow(fb, emuWidth)
+		}
+	}
 	// ---- the in-place writer
 	var pre, post []byte
+	var chunks [][]byte
 	func() {
 		setGlobals(c.Width, c.Trim)
+		if c.Fam == famCarry {
+			scrub()
+		}
 		cap.begin()
 		defer cap.end()
 		defer func() {
@@ -302,7 +331,9 @@ func runSeq(cap *capture, c Case) (res result) {
 		t := multiterm.New()
 		for i, u := range c.Seq {
 			t.WriteForLine(u.Line, u.Text)
-			if i%32 == 31 { // keep the pipe from filling up on long sequences
+			if dang {
+				chunks = append(chunks, cap.mark())
+			} else if i%32 == 31 { // keep the pipe from filling up on long sequences
 				pre = append(pre, cap.mark()...)
 			}
 		}
@@ -332,6 +363,16 @@ func runSeq(cap *capture, c Case) (res result) {
 		return
 	}
 	e := newEmu(emuWidth)
+	for i, ch := range chunks {
+		// an update whose own text ends inside an incomplete sequence puts that
+		// sequence in front of the erase sequence: not judged (the statement does
+		// not settle it); the output of every other update is
+		clean := e.malformed == ""
+		e.feed(ch)
+		if clean && danglingAt(c.Seq[i].Text) >= 0 && (e.malformed == "escape-interrupted" || e.malformed == "unterminated-escape" || e.malformed == "escape-not-csi") {
+			e.malformed = ""
+		}
+	}
 	e.feed(pre)
 	res.preHash = e.hash()
 	checkScreen(&res, "termwriter", e, m, cut, "before Close")
@@ -354,6 +395,9 @@ func runSeq(cap *capture, c Case) (res result) {
 	var bufOut []byte
 	func() {
 		setGlobals(c.Width, c.Trim)
+		if c.Fam == famCarry {
+			scrub()
+		}
 		cap.begin()
 		defer cap.end()
 		defer func() {
@@ -384,8 +428,14 @@ func runSeq(cap *capture, c Case) (res result) {
 	// ---- the virtual terminal (line store behind the buffered writer)
 	func() {
 		setGlobals(c.Width, c.Trim)
+		if c.Fam == famCarry {
+			scrub()
+		}
 		defer func() {
 			if p := recover(); p != nil {
+				if s, ok := p.(string); ok && strings.HasPrefix(s, "harness:") {
+					panic(p)
+				}
 				res.fail("C20/virtualterm/panic", "panic: %v", p)
 			}
 		}()
@@ -440,9 +490,23 @@ func checkBuffered(res *result, who string, out []byte, m model, c Case, wantLin
 	}
 	for i, l := range lines {
 		raw := m.latest[i]
+		shown := norm(visibleOf(l))
+		d := danglingAt(raw) >= 0
+		if d {
+			shown = norm(visibleD(l))
+		}
 		if !c.Trim {
 			if norm(l) != norm(raw) {
 				res.fail("C20/"+who+"/wrong-line", "line %d is %q, want %q", i, l, raw)
+			}
+		} else if d {
+			// the text itself ends inside an incomplete colour sequence: only "a
+			// prefix that [does not exceed] the width in visible characters"
+			if !isCutOf(raw, l) {
+				res.fail("C20/"+who+"/not-a-prefix", "line %d is %q, not a prefix of %q", i, l, raw)
+			}
+			if n := len([]rune(shown)); n > c.Width {
+				res.fail("C20/"+who+"/exceeds-width", "line %d %q has %d visible runes, width %d", i, l, n, c.Width)
 			}
 		} else {
 			if !isCutOf(raw, l) {
@@ -451,11 +515,20 @@ func checkBuffered(res *result, who string, out []byte, m model, c Case, wantLin
 			if endsInsideSGR(l) {
 				res.fail("C20/"+who+"/cut-inside-escape", "line %d %q ends inside an escape sequence", i, l)
 			}
-			if got, want := norm(visibleOf(l)), m.expectLine(i, c.Width); got != want {
+			if got, want := shown, m.expectLine(i, c.Width); got != want {
 				res.fail("C20/"+who+"/wrong-line", "line %d shows %q, want %q", i, got, want)
 			}
 		}
-		if got := norm(visibleOf(l)); screen != nil && got != screen.line(i) {
+		if c.Fam == famCarry {
+			// same input => same output: the line as a fresh process cuts it
+			fb, ferr := freshTrim(c.Width, c.Trim, raw)
+			if ferr != "" {
+				res.fail("C20/linetrim/panic", "a fresh process panics on the text %q alone: %s", raw, ferr)
+			} else if l != string(fb) {
+				res.fail("C20/"+who+"/line-depends-on-earlier-lines", "line %d is printed as %q; a fresh process cuts the same text to %q at the same width: the result depends on the lines printed before it", i, l, fb)
+			}
+		}
+		if got := shown; screen != nil && got != screen.line(i) {
 			res.fail("C20/"+who+"/differs-from-live-screen", "line %d shows %q, the in-place writer left %q", i, got, screen.line(i))
 		}
 	}
@@ -480,25 +553,7 @@ func runTrimLine(c Case) (res result) {
 	vis := visibleOf(c.Text)
 	res.nontrivial = c.Trim && len([]rune(vis)) > c.Width && (strings.Contains(c.Text, "\x1b") || !isASCII(c.Text))
 	res.outcome = out
-	if !c.Trim {
-		if norm(out) != norm(c.Text) {
-			res.fail("C20/linetrim/trim-off-modified", "wrote %q for %q with trimming off", out, c.Text)
-		}
-		return
-	}
-	if !isCutOf(c.Text, out) {
-		res.fail("C20/linetrim/not-a-prefix", "wrote %q, not a prefix of %q", out, c.Text)
-		return
-	}
-	if endsInsideSGR(out) {
-		res.fail("C20/linetrim/cut-inside-escape", "prefix %q of %q ends inside an escape sequence", out, c.Text)
-	}
-	got := visibleOf(out)
-	if n := len([]rune(got)); n > c.Width {
-		res.fail("C20/linetrim/exceeds-width", "prefix %q has %d visible runes, width %d", out, n, c.Width)
-	} else if want := cutVisible(vis, c.Width); norm(got) != norm(want) {
-		res.fail("C20/linetrim/cut-too-short", "prefix shows %q, want %q (width %d)", got, want, c.Width)
-	}
+	judgeTrim(&res, c.Width, c.Trim, c.Text, out, "")
 	return
 }
 
@@ -589,7 +644,9 @@ func report(w *runner.W, c Case, res result) {
 	for _, f := range res.findings {
 		w.Violation(famSig(c, f.sig), f.detail+"\ncase: "+describe(c), c)
 	}
-	if c.Kind != "trimline" {
+	if c.Kind == "trimseq" {
+		w.Add("linetrim_calls_in_sequences", int64(len(c.Seq)))
+	} else if c.Kind != "trimline" {
 		if len(res.findings) == 0 {
 			w.OutcomeHash(res.preHash)
 			w.OutcomeHash(res.postHash)
@@ -601,7 +658,7 @@ func report(w *runner.W, c Case, res result) {
 	if c.Fam != "" {
 		w.Add("cases_"+strings.ReplaceAll(c.Fam, "-", "_")+"_family", 1)
 	}
-	if res.nontrivial && w.WantSample() && (c.Kind == "trimline" || len(c.Seq) >= 3) {
+	if res.nontrivial && w.WantSample() && (c.Kind == "trimline" || len(c.Seq) >= 3 && c.Fam == "") {
 		w.Sample(c)
 	}
 }
@@ -623,6 +680,13 @@ func worker(w *runner.W) {
 	cap := newCapture()
 	defer cap.close()
 	var caseNo int64
+
+	// development aid: VERIF_C20_ONLY=call-history runs that family alone (use
+	// with -no-evidence)
+	if os.Getenv("VERIF_C20_ONLY") == famCarry {
+		carryFamily(w, cap, &caseNo)
+		return
+	}
 
 	// pass 0: WriteLineNoWrap on every token string of every token alphabet
 	for _, tp := range trimPasses(w.Quick()) {
@@ -785,6 +849,14 @@ func worker(w *runner.W) {
 			}
 		}
 	}
+	// texts that end inside an unfinished colour sequence / multi-byte character,
+	// followed by ordinary texts: call sequences and update sequences judged
+	// against the model and against a fresh process (carry.go). Last of the
+	// verdict families, so that state it may leave behind in a defective build
+	// cannot reach the cases of the other families.
+	if !carryFamily(w, cap, &caseNo) {
+		return
+	}
 	// The families below range over dimensions the property's quantifier does
 	// not have (write faults on stdout; updates after Close). A check may not
 	// raise an alarm on code where the property AS STATED holds, so they are not
@@ -909,6 +981,8 @@ func replay(w *runner.W, raw json.RawMessage) {
 	switch c.Kind {
 	case "trimline":
 		res = runTrimLine(c)
+	case "trimseq":
+		res = runTrimSeq(c)
 	case "fault":
 		if c.Room > 0 {
 			rc := newRoomCapture()
@@ -966,6 +1040,17 @@ func rule(prop, tier string) string {
 	}
 	fmt.Fprintf(&sb, "SIZE sweeps (signatures end in /size-family; sizes S(max) = 0..70 and 2^k-1, 2^k, 2^k+1 for k >= 7 up to max; element i carries i): (a) number of lines n in S(%d), shapes %v (asc-twice: lines 0..n-1 with distinct texts L<i>xxx, then all again with the same texts; gap-desc: line n-1 first, then 0, then n-2..1; rotate: lines 0..n-1, then line i gets the text of line i+1; uniform: the same text on every line, then another text on every second line bottom-up; zigzag: 0,n-1,1,n-2,... for n <= 257) x {%s}; (b) number of updates n in S(%d), update j to line j mod k (shapes *-bwd: (k-1)j mod k) for k in %v, text u<j> plus a pad of periodic length (shapes %v: growing 0..8, shrinking 8..0, triangle 0..6..0, constant), every fourth text bold, x {%s}; (c) text length n in 0..%d against width w in 1..%d with trimming on: n distinct single-column runes (ASCII then 2-byte letters) plain / a short escape in front of every rune / one escape of 5, 17 or 20 bytes (%s) starting after p visible runes for p in {0,w-2,w-1,w,w+1,n} with the reset at the end / ESC[38;5;196;1;4m after p runes with the reset one rune later; each text through WriteLineNoWrap and through the writers as the sequence (0,text),(1,x),(0,text),(1,text),(0,first n/2 runes). ", sp.maxLines, lineShapes, strings.Join(lc, "; "), sp.maxUpdates, updLines, updShapes, strings.Join(uc, "; "), sp.maxText, sp.maxWidth, q(sweepEscapes))
 	fmt.Fprintf(&sb, "INVALID UTF-8 AROUND THE CUT (signatures end in /invalid-utf8-family): for every width w in %v with trimming on, lines of n columns for n in {w-1,w,w+1,w+2,w+3,2w+2} of distinct ASCII letters and digits with ONE unit of undecodable bytes {%s} (lone continuation byte; lone lead byte of a 2-, 3-, 4-byte sequence; truncated 3- and 4-byte sequence; overlong encoding; 0xFF) starting at column p for every p in w-4..w+2 (its bytes before the cut, exactly AT the cut = the w-th column, one before, one after, across it) and as the last and the second-to-last thing of the line, in the arrangements %v (esc-after: ESC[31m directly after the unit, reset at the end; colour-before: ESC[31m at the start and the reset directly before the unit, so that a line can be longer than the width only through escape bytes and end with the undecodable byte; wrapped: colour around the whole line); each text through WriteLineNoWrap and through TermWriter / BufferedTerm / VirtualTerm as the sequence (0,text),(1,x),(0,text),(1,text),(0,w/2 ASCII runes). ", sp.badWidths, q(badUnits), badArrangements)
+	{
+		var tc, sc []string
+		for _, c := range carryTrimCfgs {
+			tc = append(tc, fmt.Sprintf("width %d trim %v", c.width, c.trim))
+		}
+		for _, c := range carrySeqCfgs {
+			sc = append(sc, fmt.Sprintf("width %d trim %v", c.width, c.trim))
+		}
+		ws := carrySweepWidths(quick)
+		fmt.Fprintf(&sb, "CALL HISTORY (signatures end in /call-history-family): texts that END INSIDE something unfinished - an incomplete colour sequence {%s} or an incomplete multi-byte character - followed by ordinary texts. (a) kind trimseq: ALL sequences of 0..%d direct multiterm.WriteLineNoWrap calls over the texts {%s} x {%s}; (b) ALL update sequences of length 0..%d over lines %v x texts {%s} x {%s} through TermWriter, BufferedTerm and VirtualTerm; (c) the incomplete sequence against the width, w in %d..%d with trimming on: first text = n visible runes for n in {0,w-2,w-1,w,w+1} (the incomplete sequence before the cut, exactly at it, after it), plain and with ESC[31m in front, followed by each of the incomplete sequences; second text in {x, w+3 distinct runes plain / with ESC[31m after p runes for p in {0,1,w-1,w} / with an escape in front of every rune}; as the call sequences (first,second), (first,empty,second), (first,second,second) and as the update sequence (0,first),(1,second),(0,second),(1,first),(2,second) through the three writers. Judged: a text made of complete colour sequences exactly as everywhere else (reference model), whatever was written before it; of a text that itself ends inside an incomplete colour sequence only that what is written is a prefix of it with at most <width> visible characters (the statement does not settle more; the escape noise such an update puts in front of its own erase sequence is not judged); and HISTORY INDEPENDENCE (same input => same output): the bytes of every call and of every line printed by BufferedTerm/VirtualTerm equal the bytes a FRESH PROCESS writes for the same (text, width, trimming) with its first and only WriteLineNoWrap call (the harness binary re-executes itself once per distinct key: counter fresh_process_references), and a row of the in-place writer whose latest text ends in an incomplete sequence shows what those bytes show on the emulator. Every case of this family starts with three unjudged calls (ESC[0m, x, empty) so that cases do not depend on each other or on the sharding (unit of sharding: one configuration / one width of (c)). ", q(carryTails), carryMaxLen(quick), q(carryTexts()), strings.Join(tc, "; "), carryMaxLen(quick), carrySeqLines, q(carrySeqTexts), strings.Join(sc, "; "), ws[0], ws[len(ws)-1])
+	}
 	sb.WriteString("NOT PART OF THE VERDICT (run only with VERIF_C20_BEYOND=1, because the property quantifies over update sequences followed by close, not over write faults or updates after Close): HISTORY (signatures end in /history-family): every sequence of 0..2 updates over lines {0,2} x texts {empty, ab, coloured 8 runes}, Close, every sequence of 1..2 updates, Close, x {width 5 trim on; width 80 trim off}: the in-place writer must not panic (the statement is silent about the screen after Close, nothing else is judged; the buffered and virtual writers refuse updates after Close by design and are not driven after Close). The same text written twice to a line with other lines written in between, and the same text moved to another line, are in the exhaustive passes and in the shapes asc-twice, rotate, uniform and (c). ")
 	{
 		var cs []string
@@ -974,11 +1059,14 @@ func rule(prop, tier string) string {
 		}
 		fmt.Fprintf(&sb, "WRITE FAULT (signatures C20/termwriter/write-fault/<class>/<failure>): ALL update sequences of length 1..%d over lines %v x texts {%s}, and the shapes %v with n in %v lines, x EVERY position of ONE failing update x {%s}: every write to stdout made by the chosen update fails (an already expired write deadline on the pipe that stands in for os.Stdout, cleared right after the update: each write returns an error at once and writes nothing - verified in every case; no timing involved), the remaining updates are written normally, then every line written so far is rewritten once with its latest text (one full repaint, as the renderers do on their next tick) and the writer is closed. Judged: after the updates that follow the failed one every line shows its latest text, except that the line of the failed update may still show its text as if that update had not been made; after the repaint every line shows exactly its latest text; after Close the cursor is below the last line and visible; no panic, no output outside the emulated subset, no cursor-up past the first row. class = cursor-line-update (the failed update is addressed to the line the cursor is on: CR, text and erase are lost, no cursor movement) | cursor-moving-update (line feeds / cursor-up sequences are lost with it; there every mismatch of rows or cursor position is filed as display-not-restored). PARTIAL faults: ALL sequences of length 1..%d over the same alphabet, and the shapes with n in [2 3 5] lines, x every position x the same configurations x EVERY amount of room R in 0..T-1 (T = bytes the update writes unfaulted, measured by a dry run of the same case): stdout is a non-blocking one-page pipe not polled by the Go runtime (O_NONBLOCK set behind the os.File), filled up to R bytes of room before the chosen update, so of the update's writes, in order, each one that still fits arrives and each one that does not fails with EAGAIN writing nothing (Linux pipes: writes <= PIPE_BUF are atomic, room is not reclaimed before the pipe is empty): all fail / the cursor movement arrives and text and erase fail / the erase arrives without the text / only the cursor-hide fails ...; judged like the whole-update fault, except that after a partially arrived update nothing is demanded of that update's own line before the repaint. ", faultMaxLen(quick), faultLines, q(faultTexts), lineShapes, faultGenSizes(quick), strings.Join(cs, "; "), roomMaxLen(quick))
 	}
-	sb.WriteString("states = distinct_outcomes = distinct emulator states (screen rows, cursor row/column, cursor visibility, width) reached before and after Close; transitions = updates + Close applied. non-trivial = (sequence) at least two updates of which one rewrites an already written line or moves to a lower line index; (linetrim) a text longer than the width that contains an escape sequence or a non-ASCII byte")
+	sb.WriteString("states = distinct_outcomes = distinct emulator states (screen rows, cursor row/column, cursor visibility, width) reached before and after Close; transitions = updates + Close applied. non-trivial = (sequence) at least two updates of which one rewrites an already written line or moves to a lower line index; (linetrim) a text longer than the width that contains an escape sequence or a non-ASCII byte; (trimseq) a call after the first whose text is longer than the width")
 	return sb.String()
 }
 
 func main() {
+	if spec := os.Getenv(freshEnv); spec != "" {
+		freshChild(spec) // one WriteLineNoWrap call in a fresh process (carry.go); never returns
+	}
 	runner.Main(&runner.Spec{
 		Name:       "term",
 		Properties: []string{"C20"},
@@ -991,7 +1079,8 @@ func main() {
 				"text that is not valid UTF-8: every byte that is not part of a valid UTF-8 sequence occupies ONE column (a terminal shows one replacement glyph for it; Go's rune decoding yields one utf8.RuneError per such byte, and the unchanged WriteLineNoWrap rewrites each to U+FFFD), so the two bytes of a truncated 3-byte sequence are two columns; a terminal that shows one glyph for a whole truncated sequence (the line is then narrower than counted, never wider) or none is not covered. \"cut to a prefix\": the output may keep such a byte or put U+FFFD in its place (same visible result); both are accepted, also with trimming off and by the emulator",
 				"right margin: a cursor resting just past the last column (pending wrap) does not wrap until the next printable, and erase-to-end-of-line in that position erases nothing; a terminal that erases the last cell there (VT100 last-column flag) is not covered",
 				"with trimming off (--notrim or not a TTY) nothing is cut and the emulator has no right margin: the sentence about cutting is checked with trimming on only",
-				"texts contain only complete SGR escape sequences (ESC [ digits ; m); a colour left switched on by a cut before its reset sequence is not a violation of the statement",
+				"outside the call-history family texts contain only complete SGR escape sequences (ESC [ digits ; m); a colour left switched on by a cut before its reset sequence is not a violation of the statement",
+				"call-history family: an incomplete colour sequence occurs only as the last bytes of a text (a text cut in the middle of a sequence) and counts as zero columns; what is written for such a text is judged only as far as the statement goes (a prefix, at most <width> visible characters) and by history independence against a fresh process; an ESC followed by text that is not a colour sequence in the MIDDLE of a line (a non-colour control sequence) is not generated - its column width is terminal-dependent; the terminal is assumed to abandon an incomplete sequence when the next ESC arrives (as the emulator does), so the erase sequence that follows it works",
 				"the width hook multiterm.VerifSetTermSize (build tag verif) replaces the width detected from a real TTY",
 				"one terminal, one TermWriter: two writer instances on the same terminal are out of scope; updates after Close are only required not to panic (TermWriter), VirtualTerm/BufferedTerm panic on them by design (\"virtualterm closed\")",
 				"write faults: transient failures within exactly ONE update are generated (an expired write deadline: every write fails; EAGAIN on a non-blocking descriptor with limited room: the writes that do not fit fail), every failing call writes nothing (no short writes); faults in two or more updates, a fault during Close, and a terminal that stays broken are not covered. The statement cannot demand that a failed write appears on screen: the failed update's own text is only demanded after the full repaint that follows, in which every write succeeds",
